@@ -223,6 +223,25 @@ fn axes() -> Vec<(String, Box<dyn Fn(&mut Form, &mut bool) + Send + Sync>)> {
     add(&mut v, "meta-with-bare-lfs-and-trailing-lf", Box::new(|f, _| f.fields.insert(1, ("x-amz-meta-a".into(), "a\nb\nc\n".into()))));
     add(&mut v, "meta-with-bare-cr", Box::new(|f, _| f.fields.insert(1, ("x-amz-meta-a".into(), "a\rb".into()))));
     add(&mut v, "meta-with-crlf-inside", Box::new(|f, _| f.fields.insert(1, ("x-amz-meta-a".into(), "a\r\nb".into()))));
+    // values that are not UTF-8 (a Latin-1 byte, a truncated sequence): a String member cannot hold them, so the form is
+    // refused - never stored under a rewritten value
+    add(&mut v, "key-not-utf8", Box::new(|f, j| {
+        let i = f.fields.iter().position(|x| x.0.eq_ignore_ascii_case("key")).unwrap_or(0);
+        f.raw_values.push((i, b"up/report-\xE9.txt".to_vec()));
+        *j = false;
+    }));
+    add(&mut v, "meta-not-utf8", Box::new(|f, j| {
+        f.fields.insert(1, ("x-amz-meta-a".into(), "placeholder".into()));
+        f.raw_values.iter_mut().for_each(|r| if r.0 >= 1 { r.0 += 1 });
+        f.raw_values.push((1, b"caf\xE9".to_vec()));
+        *j = false;
+    }));
+    add(&mut v, "meta-truncated-utf8", Box::new(|f, j| {
+        f.fields.insert(1, ("x-amz-meta-a".into(), "placeholder".into()));
+        f.raw_values.iter_mut().for_each(|r| if r.0 >= 1 { r.0 += 1 });
+        f.raw_values.push((1, b"a\xF0\x9F\x98".to_vec()));
+        *j = false;
+    }));
     add(&mut v, "meta-edge-blanks", Box::new(|f, _| f.fields.insert(1, ("x-amz-meta-a".into(), " v ".into()))));
     add(&mut v, "meta-blank-only", Box::new(|f, _| f.fields.insert(1, ("x-amz-meta-a".into(), " ".into()))));
     add(&mut v, "meta-ends-in-tab", Box::new(|f, _| f.fields.insert(1, ("x-amz-meta-a".into(), "v\t".into()))));
@@ -513,6 +532,13 @@ pub fn run(ctx: &Ctx) -> (Acc, Report) {
         a.outcome(&format!("ref={} impl={}", match &reference { FormVerdict::Accept { .. } => "accept".to_owned(), FormVerdict::RejectAuth(_) => "reject-auth".to_owned(), FormVerdict::RejectPolicy(p) => format!("reject-policy({p:?})"), FormVerdict::NotJudged => "not-judged".to_owned() }, if impl_accept { "accept".to_owned() } else { format!("reject:{}", out.verdict()) }));
         if matches!(out, CallOutcome::Panic(_) | CallOutcome::Hang | CallOutcome::TransportFailure(_)) {
             a.fail("C10/no-response", vi, id(), out.verdict(), json!({}));
+            continue;
+        }
+        if !v.form.raw_values.is_empty() {
+            // a value that is not UTF-8: refused, or (never observed) stored with exactly those bytes - which a String cannot hold
+            if impl_accept {
+                a.fail("C10/stored-differs-from-form/value-that-is-not-utf8-rewritten", vi, id(), format!("a form whose field value is not UTF-8 was stored ({}): the backend's text cannot be the form's bytes; it saw {}", out.verdict(), calls.first().map(|c| c.input_debug.chars().take(300).collect::<String>()).unwrap_or_default()), json!({"label": v.label}));
+            }
             continue;
         }
         match &reference {
